@@ -441,6 +441,11 @@ func diffHead(a, b string) string {
 
 // ---- (2) workloads -----------------------------------------------------------
 
+// preRotationClockOK: with oneRotation the clock jumps from 0 to 3300 when the
+// workload starts; every generated slot is within 432 of 3300 and inside both
+// the old window [0,4032) and the new one [2016,6048).
+func preRotationClockOK(slot uint32) bool { return slot >= 2868 && slot <= 3732 }
+
 type c13Work struct {
 	desc string
 	run  func(S *world.Server) error
@@ -514,29 +519,39 @@ func TestC13Workloads(t *testing.T) {
 		if oneRotation {
 			now = 3300
 		}
-		glow.SetCurrentTimeslot(now)
-		if oneRotation {
-			// wait for the free-running loop to rotate once, before reports are judged against the window
-			deadline := time.Now().Add(3 * time.Second)
-			for srv.VerifSnapshot().Offset != 2016 && time.Now().Before(deadline) {
-				time.Sleep(5 * time.Millisecond)
-			}
-			if srv.VerifSnapshot().Offset != 2016 {
-				t.Fatalf("C13: the rotation loop did not rotate at now-offset=3300")
-			}
-			m.Rotate()
+		// With oneRotation the clock is moved past the trigger only when the
+		// workload starts, so the free-running loop rotates WHILE the workload
+		// runs. All reports target slots that lie in the second half of the old
+		// window = first half of the new one and are within 432 of the clock, so
+		// they are acceptable before and after the rotation and the final state
+		// does not depend on when it happens.
+		if !oneRotation {
+			glow.SetCurrentTimeslot(now)
 		}
 		touch := map[string]int{}
+		srvNew, srvBanned := map[[32]byte]bool{}, map[[32]byte]bool{}
+		if preRegistered {
+			for i := 0; i < 3; i++ {
+				as := ref.AuthServer{PublicKey: keyFor(fmt.Sprintf("c13w-peer-%d", i)).Pub, Location: "127.0.0.1", HttpPort: 1}
+				as.Sig = ref.Sign(gca, as.SigningBytes())
+				if st, _, err := srv.PostJSON("/api/v1/authorized-servers", world.ToGlowServer(as)); err != nil || st != 200 {
+					t.Fatalf("C13: pre-installing a peer failed: %v %d", err, st)
+				}
+			}
+		}
 		nOps := rapid.IntRange(20, 80).Draw(t, "ops")
 		fresh := uint32(100)
 		for i := 0; i < nOps; i++ {
-			switch kind := rapid.SampledFrom([]string{"report", "report", "report", "replay", "equivocate", "auth-new", "auth-dup", "auth-conflict", "get", "get", "sync", "post-refused", "register-invalid"}).Draw(t, "kind"); kind {
+			switch kind := rapid.SampledFrom([]string{"report", "report", "report", "replay", "equivocate", "auth-new", "auth-dup", "auth-conflict", "get", "get", "get", "sync", "post-refused", "post-server-valid", "post-server-valid", "register-invalid"}).Draw(t, "kind"); kind {
 			case "report", "replay", "equivocate":
 				if !preRegistered {
 					continue
 				}
 				id := uint32(rapid.IntRange(1, nDev).Draw(t, "dev"))
 				slot := now - 400 + uint32(rapid.IntRange(0, 800).Draw(t, "slotOff"))
+				if oneRotation && !preRotationClockOK(slot) {
+					continue
+				}
 				p := uint64(1000 + rapid.IntRange(0, 3).Draw(t, "p"))
 				r := ref.SignedReport(keys[id], id, slot, p)
 				n := 1
@@ -593,6 +608,33 @@ func TestC13Workloads(t *testing.T) {
 					_, _, err := S.SyncDevice(id)
 					return err
 				}})
+			case "post-server-valid":
+				if !preRegistered {
+					continue
+				}
+				var as ref.AuthServer
+				switch rapid.IntRange(0, 2).Draw(t, "srvOp") {
+				case 0: // a new peer
+					fresh++
+					as = ref.AuthServer{PublicKey: keyFor(fmt.Sprintf("c13w-newpeer-%d", fresh)).Pub, Location: "127.0.0.1", HttpPort: 1}
+					srvNew[as.PublicKey] = true
+				case 1: // ban a pre-installed peer
+					i := rapid.IntRange(0, 2).Draw(t, "peer")
+					as = ref.AuthServer{PublicKey: keyFor(fmt.Sprintf("c13w-peer-%d", i)).Pub, Banned: true, Location: "127.0.0.1", HttpPort: 1}
+					srvBanned[as.PublicKey] = true
+				default: // re-submit a pre-installed peer un-banned with other ports (ignored in every order)
+					i := rapid.IntRange(0, 2).Draw(t, "peer")
+					as = ref.AuthServer{PublicKey: keyFor(fmt.Sprintf("c13w-peer-%d", i)).Pub, Location: "127.0.0.1", HttpPort: 9}
+				}
+				as.Sig = ref.Sign(gca, as.SigningBytes())
+				touch["server-list"]++
+				work = append(work, c13Work{fmt.Sprintf("POST authorized-servers %x banned=%v", as.PublicKey[:3], as.Banned), func(S *world.Server) error {
+					st, _, err := S.PostJSON("/api/v1/authorized-servers", world.ToGlowServer(as))
+					if err == nil && st != 200 {
+						return fmt.Errorf("GCA-signed server authorization refused: %d", st)
+					}
+					return err
+				}})
 			case "post-refused":
 				// signed by a key that is never the GCA: refused whatever the order
 				bad := keyFor("c13w-notgca")
@@ -647,6 +689,9 @@ func TestC13Workloads(t *testing.T) {
 				udpSent++
 			}
 		}
+		if oneRotation {
+			glow.SetCurrentTimeslot(now) // the rotation loop will now rotate at some point during the workload
+		}
 		ch := make(chan c13Work, len(order))
 		for _, w := range order {
 			ch <- w
@@ -669,6 +714,16 @@ func TestC13Workloads(t *testing.T) {
 		close(errs)
 		for err := range errs {
 			t.Fatalf("C13: operation failed in the workload: %v (panics %+v)", err, server.VerifPanics())
+		}
+		if oneRotation {
+			deadline := time.Now().Add(3 * time.Second)
+			for srv.VerifSnapshot().Offset != 2016 && time.Now().Before(deadline) {
+				time.Sleep(5 * time.Millisecond)
+			}
+			if srv.VerifSnapshot().Offset != 2016 {
+				t.Fatalf("C13: the rotation loop did not rotate at now-offset=3300 (offset %d); panics %+v", srv.VerifSnapshot().Offset, server.VerifPanics())
+			}
+			m.Rotate()
 		}
 		// quiescence: all datagrams handled
 		deadline := time.Now().Add(5 * time.Second)
@@ -745,6 +800,29 @@ func TestC13Workloads(t *testing.T) {
 			}
 			if !found {
 				t.Fatalf("C13: id %d is not banned after a conflicting pair of authorizations", id)
+			}
+		}
+		if preRegistered {
+			got := map[[32]byte]bool{}
+			for _, x := range snap.Servers {
+				if _, dup := got[[32]byte(x.PublicKey)]; dup {
+					t.Fatalf("C13: authorized server %x listed twice after the workload", x.PublicKey[:3])
+				}
+				got[[32]byte(x.PublicKey)] = x.Banned
+			}
+			if len(got) != 3+len(srvNew) {
+				t.Fatalf("C13: %d authorized servers after the workload, the sequential rules give %d", len(got), 3+len(srvNew))
+			}
+			for i := 0; i < 3; i++ {
+				k := keyFor(fmt.Sprintf("c13w-peer-%d", i)).Pub
+				if b, ok := got[k]; !ok || b != srvBanned[k] {
+					t.Fatalf("C13: peer %d after the workload: listed=%v banned=%v, the sequential rules give banned=%v", i, ok, b, srvBanned[k])
+				}
+			}
+			for k := range srvNew {
+				if b, ok := got[k]; !ok || b {
+					t.Fatalf("C13: new peer %x missing or banned after the workload", k[:3])
+				}
 			}
 		}
 		shared := 0
